@@ -5,6 +5,7 @@ package main
 import (
 	"fmt"
 	"go/ast"
+	"go/constant"
 	"go/parser"
 	"go/token"
 	"go/types"
@@ -535,6 +536,8 @@ func c20MockOnlyWithServices(c *Ctx) {
 // each kind and the literal must be a constant of the key's Go type (go/types on `var m map[K]int; _ = m[<literal>]`).
 func c20MapKeyLiterals(c *Ctx) {
 	r := c.R
+	r.Rule("R20o", "the generate_mock option is read by a boolean parser that accepts every spelling the flag package accepts", 1)
+	c20MockOptionParsed(c, "R20o")
 	r.Rule("R20n", "the sample key the mock uses to fill a map field is a constant of the map's key type, for every key kind protobuf admits (string, bool, all integer kinds)", 12)
 	fn := c.P.Func(pkgHTTP, "Generator.getSampleMapKey")
 	if fn == nil {
@@ -585,4 +588,96 @@ func c20MapKeyLiterals(c *Ctx) {
 		r.CheckD(msg == "", "R20n", key, pos,
 			fmt.Sprintf("for a map<%s, …> response field the mock emits `resp.F[%s] = …`: %s — the package with the mock file does not build", kind, lit, msg), map[string]any{"literal": lit})
 	}
+}
+
+// c20MockOptionParsed — R20o. The generate_mock plugin parameter is a boolean option: the go-http main reads it with the
+// flag package's boolean parser (flag.FlagSet.BoolVar + Set as ParamFunc) or strconv.ParseBool, which accept 1, t, T, TRUE,
+// true, True. A hand-written comparison with one spelling (`value == "true"`) silently switches the mock off for every
+// other spelling the option used to accept: the plugin succeeds and the mock file is missing.
+func c20MockOptionParsed(c *Ctx, rid string) {
+	r := c.R
+	rel := "cmd/protoc-gen-go-http"
+	pk := c.P.Pkg(rel)
+	if pk == nil {
+		r.Unres(rid, rel, "", "package not loaded")
+		return
+	}
+	info := pk.TypesInfo
+	found := false
+	for _, f := range pk.Syntax {
+		ast.Inspect(f, func(n ast.Node) bool {
+			kv, ok := n.(*ast.KeyValueExpr)
+			if !ok || types.ExprString(kv.Key) != "ParamFunc" {
+				return true
+			}
+			found = true
+			pos := c.P.Pos(kv.Pos())
+			val := ast.Unparen(kv.Value)
+			if id, ok := val.(*ast.Ident); ok {
+				if fd := c.P.Decls[asFunc(info.ObjectOf(id))]; fd != nil {
+					val = &ast.FuncLit{Type: fd.Type, Body: fd.Body}
+				}
+			}
+			switch x := val.(type) {
+			case *ast.SelectorExpr:
+				// flags.Set of a flag.FlagSet on which generate_mock is registered with BoolVar / Bool
+				okSet := false
+				if sel, ok := info.Selections[x]; ok && sel.Obj().Name() == "Set" && typeIsNamed(sel.Recv(), "flag", "FlagSet") {
+					okSet = true
+				}
+				reg := false
+				ast.Inspect(f, func(m ast.Node) bool {
+					if call, ok := m.(*ast.CallExpr); ok {
+						if cal := Callee(info, call); cal != nil && cal.Pkg() != nil && cal.Pkg().Path() == "flag" && (cal.Name() == "BoolVar" || cal.Name() == "Bool") {
+							for _, a := range call.Args {
+								if tv, ok := info.Types[a]; ok && tv.Value != nil && tv.Value.Kind() == constant.String && constant.StringVal(tv.Value) == "generate_mock" {
+									reg = true
+								}
+							}
+						}
+					}
+					return true
+				})
+				r.Check(okSet && reg, rid, "generate_mock is parsed by the flag package's boolean parser", pos,
+					fmt.Sprintf("ParamFunc is %s (a flag.FlagSet's Set: %v; generate_mock registered with BoolVar/Bool: %v)", types.ExprString(x), okSet, reg))
+			case *ast.FuncLit:
+				parses, compares := false, ""
+				ast.Inspect(x.Body, func(m ast.Node) bool {
+					switch y := m.(type) {
+					case *ast.CallExpr:
+						if cal := Callee(info, y); cal != nil && cal.Pkg() != nil && cal.Pkg().Path() == "strconv" && cal.Name() == "ParseBool" {
+							parses = true
+						}
+						if cal := Callee(info, y); cal != nil && cal.Pkg() != nil && cal.Pkg().Path() == "flag" && cal.Name() == "Set" {
+							parses = true
+						}
+					case *ast.BinaryExpr:
+						if y.Op == token.EQL || y.Op == token.NEQ {
+							for _, side := range []ast.Expr{y.X, y.Y} {
+								if tv, ok := info.Types[side]; ok && tv.Value != nil && tv.Value.Kind() == constant.String {
+									if s := strings.ToLower(constant.StringVal(tv.Value)); s == "true" || s == "false" || s == "1" || s == "0" {
+										compares = types.ExprString(y)
+									}
+								}
+							}
+						}
+					}
+					return true
+				})
+				r.Check(parses && compares == "", rid, "generate_mock is parsed as a boolean (strconv.ParseBool / flag), not compared with one spelling", pos,
+					fmt.Sprintf("the hand-written ParamFunc decides the option with `%s` (boolean parser used: %v): generate_mock=1, =t, =TRUE, =True — all accepted by the flag package the option was defined with — now leave the mock switched off, silently", compares, parses))
+			default:
+				r.Undec(rid, "ParamFunc of protoc-gen-go-http", pos, "ParamFunc is neither a FlagSet's Set nor a function literal")
+			}
+			return true
+		})
+	}
+	if !found {
+		r.Unres(rid, "ParamFunc of protoc-gen-go-http", "", "protogen.Options literal with a ParamFunc not found: generate_mock cannot be switched on")
+	}
+}
+
+func asFunc(o types.Object) *types.Func {
+	f, _ := o.(*types.Func)
+	return f
 }
